@@ -13,7 +13,9 @@
 //!                                                      start is the position of the returned slice inside the
 //!                                                      text, `-` when the slice does not point into the text)
 //!                      (per call: …=panic:<message>)
-//!   lex tokens-batch|lines-batch <hex> <hex> …   the same for several texts (`-` = empty text), every output
+//!   lex parse <hex>    len=<bytes>, root_length=<u32>, roundtrip=<0|1> (green root .to_string() == text),
+//!                      tree=<pre-order dump N:<KIND>:<text_length> / T:<KIND>:<bytes>>, errors=… (lexer + parser), or panic=…
+//!   lex tokens-batch|lines-batch|parse-batch <hex> <hex> …   the same for several texts (`-` = empty text), every output
 //!                      line prefixed with `<index>.`
 use std::panic;
 
@@ -122,6 +124,43 @@ fn one(sub: &str, hex: &str, pre: &str) {
                 }
             }
         }
+        "parse" => {
+            // the parser's entry on the whole text: errors, length of the green root, pre-order dump of the green tree
+            // (N:<KIND>:<text_length> / T:<KIND>:<bytes>), and whether the concatenated token texts reproduce the input
+            let shared = std::sync::Arc::new(text.clone());
+            match guarded(move || {
+                let (file, errors) = dora_parser::Parser::from_shared_string(shared).parse();
+                let root = file.root().green().clone();
+                let mut dump = Vec::new();
+                dump_green(&root, &mut dump);
+                (errors, root.text_length(), root.to_string(), dump)
+            }) {
+                Ok((errors, len, back, dump)) => {
+                    println!("root_length={}", len);
+                    println!("roundtrip={}", if back == text { 1 } else { 0 });
+                    println!("tree={}", dump.join(","));
+                    println!(
+                        "errors={}",
+                        errors
+                            .iter()
+                            .map(|e| format!("{}@{}+{}", error_name(&e.error), e.span.start(), e.span.len()))
+                            .collect::<Vec<_>>()
+                            .join(";")
+                    );
+                }
+                Err(m) => println!("panic={}", m),
+            }
+        }
         _ => println!("unknown_command=1"),
+    }
+}
+
+fn dump_green(node: &dora_parser::GreenNode, out: &mut Vec<String>) {
+    out.push(format!("N:{:?}:{}", node.syntax_kind(), node.text_length()));
+    for c in node.children() {
+        match c {
+            dora_parser::GreenElement::Token(t) => out.push(format!("T:{:?}:{}", t.kind, t.text.len())),
+            dora_parser::GreenElement::Node(n) => dump_green(n, out),
+        }
     }
 }
